@@ -267,14 +267,15 @@ theorem pod_write_sound (c : Ctl) (v : Pod) (c' : Ctl) (hph : v.phase ≠ "F") (
       refine ⟨some o, .upd, ?_, by simp, by simp⟩
       simp [runEvents, handle, hfind]
   obtain ⟨old, kind, hrun, hkind, hold⟩ := hev
-  have hlab : ∀ o, old = some o → o.labels = v.labels := by
-    intro o ho
-    have hfo := hold o ho
-    unfold PodGood at hgood
-    rw [hfo] at hgood
-    simp only [podSig, Prod.mk.injEq] at hgood
-    exact hgood.2.2.1
-  obtain ⟨ks, hR, heff, _, herased⟩ := podEvent_eff c1 old v kind hlab
+  have hnr : NoRecompute c1 old v := by
+    cases old with
+    | none => exact Or.inl rfl
+    | some o =>
+      have hfo := hold o rfl
+      unfold PodGood at hgood
+      rw [hfo] at hgood
+      exact hgood.1
+  obtain ⟨ks, hR, heff, _, herased⟩ := podEvent_eff c1 old v kind hnr
   have hrunAll : runAll c1 [podEvOf c v] = (runEvents (podEvent c1 old v kind).1 (ks.map Ev.replay)).1 := by
     show (runEvents (runEvents c1 _).1 (runEvents c1 _).2).1 = _
     rw [hrun]
@@ -303,16 +304,10 @@ theorem pod_write_sound (c : Ctl) (v : Pod) (c' : Ctl) (hph : v.phase ≠ "F") (
     cases this
   · rw [hother tns tn hsame]; exact hmiss
 
-theorem pod_delete_sound (c : Ctl) (ns name : String) (c' : Ctl) (hstep : stepC c (.delPod ns name) = some c')
-    (hs : ResyncSound c) (hwf : WF c) (hgood : PodDelGood c ns name) : ResyncSound c' := by
-  simp only [stepC] at hstep
-  cases hfo : findPod c.pods ns name with
-  | none => rw [hfo] at hstep; cases hstep
-  | some o =>
-    rw [hfo] at hstep
-    simp only [Option.map, Option.some.injEq] at hstep
-    subst hstep
-    let c1 : Ctl := { c with pods := c.pods.filter (fun x => !(x.ns = ns ∧ x.name = name)) }
+/-- a pod leaves the store (delete or eviction): registrations stay sound - whatever waited still waits -/
+theorem pod_removed_sound (c : Ctl) (ns name : String) (evp : Pod) (hs : ResyncSound c) (hwf : WF c) :
+    ResyncSound (runAll { c with pods := c.pods.filter (fun x => !(x.ns = ns ∧ x.name = name)) } [.podDel evp]) := by
+  · let c1 : Ctl := { c with pods := c.pods.filter (fun x => !(x.ns = ns ∧ x.name = name)) }
     have hwf1 : WF c1 := by
       refine ⟨hwf.sliceEntryInj, hwf.sliceKeyInj, hwf.sliceNameInj, hwf.svcHostInj, hwf.svcNameInj, hwf.sliceSvc, ?_⟩
       intro a ha b hb
@@ -327,27 +322,53 @@ theorem pod_delete_sound (c : Ctl) (ns name : String) (c' : Ctl) (hstep : stepC 
       by_cases h1 : x.ns = tns
       · right; intro h2; exact hne ⟨h1.symm.trans hx.1, h2.symm.trans hx.2⟩
       · left; exact h1
-    obtain ⟨ks, hR, heff, _, _⟩ := podEvent_eff c1 none o .del (by intro _ h; cases h)
-    have hrunAll : runAll c1 [Ev.podDel o] = (runEvents (podEvent c1 none o .del).1 (ks.map Ev.replay)).1 := by
+    have hgone : findPod c1.pods ns name = none := by
+      show (c.pods.filter (fun x => !(decide (x.ns = ns ∧ x.name = name)))).find? _ = none
+      rw [List.find?_eq_none]
+      intro x hx
+      have := (List.mem_filter.mp hx).2
+      simp only [Bool.not_eq_true', decide_eq_false_iff_not] at this
+      simpa using this
+    obtain ⟨ks, hR, heff, _, _⟩ := podEvent_eff c1 none evp .del (Or.inl rfl)
+    have hrunAll : runAll c1 [Ev.podDel evp] = (runEvents (podEvent c1 none evp .del).1 (ks.map Ev.replay)).1 := by
       show (runEvents (runEvents c1 _).1 (runEvents c1 _).2).1 = _
       simp only [runEvents, handle, List.append_nil]
       rw [hR]
     show ResyncSound (runAll c1 _)
     rw [hrunAll]
-    generalize hc2 : (podEvent c1 none o .del).1 = c2 at *
+    generalize hc2 : (podEvent c1 none evp .del).1 = c2 at *
     apply replays_sound ks c2 _ (hwf1.of_stores heff.slices heff.svcs heff.pods)
     intro a k h
     obtain ⟨x, hx, hxk, hxa⟩ := hs a k (heff.sub a k h)
     rw [heff.slices, heff.pods]
     refine ⟨x, hx, hxk, ?_⟩
-    rw [← parkedAddrs_congr c.pods c1.pods x]
-    · exact hxa
-    · intro ea hea tns tn htg
-      have hsame : ¬ (tns = ns ∧ tn = name) := by
-        intro h
-        apply hgood x hx ea hea
-        rw [htg, h.1, h.2]
-      rw [hother tns tn hsame]
+    apply parkedAddrs_mono c1.pods c.pods x a _ hxa
+    intro ea hea tns tn htg hnone
+    by_cases hsame : tns = ns ∧ tn = name
+    · rw [hsame.1, hsame.2]; exact hgone
+    · rw [hother tns tn hsame]; exact hnone
+
+theorem pod_delete_sound (c : Ctl) (ns name : String) (c' : Ctl) (hstep : stepC c (.delPod ns name) = some c')
+    (hs : ResyncSound c) (hwf : WF c) : ResyncSound c' := by
+  simp only [stepC] at hstep
+  cases hfo : findPod c.pods ns name with
+  | none => rw [hfo] at hstep; cases hstep
+  | some o =>
+    rw [hfo] at hstep
+    simp only [Option.map, Option.some.injEq] at hstep
+    subst hstep
+    exact pod_removed_sound c ns name o hs hwf
+
+theorem pod_evict_sound (c : Ctl) (v : Pod) (c' : Ctl) (hph : v.phase = "F") (hstep : stepC c (.pod v) = some c')
+    (hs : ResyncSound c) (hwf : WF c) : ResyncSound c' := by
+  simp only [stepC, hph, if_true] at hstep
+  cases hfo : findPod c.pods v.ns v.name with
+  | none => rw [hfo] at hstep; cases hstep
+  | some o =>
+    rw [hfo] at hstep
+    simp only [Option.map, Option.some.injEq] at hstep
+    subst hstep
+    exact pod_removed_sound c v.ns v.name v hs hwf
 
 /-! ### label edit: `recomputeServiceForPod` only adds registrations of waiting addresses -/
 
